@@ -63,6 +63,7 @@ func C16(p *load.Prog, r *report.Report) {
 	r.RequireCount("C16.api", "exported functions and methods of the root package", n, 50)
 	moduleHygiene(p, r, "C16")
 	pooledResults(p, a, r, "C16")
+	pooledOrder(p, r, "C16")
 	// recycled objects: "every call returns what it would return if run alone" then rests on the functional proof
 	// that a result is a function of the call's inputs only, whatever state a previous user left in the pooled object
 	// (E1 hands out pooled objects with unknown contents). That proof is C08's and C09's; it is part of this
